@@ -4,7 +4,7 @@ from vlib import *
 
 PROP = 'C09'
 IMPORTS = 'Base.F32 Model.Ops Model.Expr Model.TypeCheck Corr.C09'
-KINDS = ('PROG', 'CTY', 'DYN')
+KINDS = ('PROG', 'CTY', 'DYN', 'CV', 'FOLD')
 
 ENTRY = 'entry { path: "a.png", has_data: false, img_width: 16, img_height: 16, img_format: 1, sprites: {} }\n'
 SKIND = {1: 'Item', 2: 'Jump', 3: 'CondJump', 4: 'Return', 5: 'CondChain', 6: 'Loop', 7: 'While', 8: 'Times', 9: 'Expr',
@@ -228,7 +228,12 @@ def main(argv):
                   {'mode': 'ecl10', 'source_text': ECL10_WITNESS, 'detail': f[1]})
         elif f[0].startswith('accepted by type_check'):
             idx = [i for i, t in enumerate(texts) if t == f[2] and kinds[i] == 'PROG']
-            if not (idx and idx[0] in smism): later_on_well_typed += 1
+            if not (idx and idx[0] in smism):
+                later_on_well_typed += 1
+                # accepted by type_check (and well-typed for the reference typer), yet a later pass dies on a type error
+                if re.search(r'already type-checked|type_check should fail|shoulda been type-checked|type error|uncaught_type_error', f[1]):
+                    found('c09-later-type-panic', 'accepted by type_check, then a later pass panics on a type error: ' + f[1][:200],
+                          {'kind': 'PROG', 'source_text': f[2].replace('\\n', '\n'), 'detail': f[1], 'tag': f[3] if len(f) > 3 else ''})
         else:
             v.violation('implementation-level oracle: ' + f[0], {'class': 'c09-oracle', 'detail': f})
 
@@ -265,7 +270,7 @@ def main(argv):
     v.coverage.update({
         'evaluations': len(cases),
         'distinct_nontrivial': distinct_count([c for c, k in zip(cases, kinds) if k == 'PROG' or 'IOk' in c[-30:]]),
-        'rule': 'gen: type-directed generator of well-typed ANM programs over all statement kinds (items, functions, consts, declarations, assignments with every assign-op, calls with pseudo-args/blobs/aliases/user functions, conditional chains, loops, while/do-while, times with and without clobber, free blocks, labels, time labels, interrupt labels, jumps, returns; nesting depth <= 6), each followed by its single-point mutants (operand, variable, literal, sigil, cast, argument, arity, declared type, void/value) at every mutation point (quick: a seeded sample of 10 per program) -> parse/assign_languages/resolve_names, then passes::type_check::run under catch_unwind (Ok/Err/panic only) vs Model.TypeCheck.check_file on the resolved AST; accepted statement-level expressions through Expr::compute_ty and AstVm::eval(..).ty() vs compute_ty / eval of the model. distinct = distinct case terms; non-trivial = a whole program, or an expression for which the implementation produced a type',
+        'rule': 'gen: type-directed generator of well-typed ANM programs over all statement kinds (items, functions, consts, declarations, assignments with every assign-op, calls with pseudo-args/blobs/aliases/user functions, conditional chains, loops, while/do-while, times with and without clobber, free blocks, labels, time labels, interrupt labels, jumps, returns; nesting depth <= 6), each followed by its single-point mutants (operand, variable, literal, sigil, cast, argument, arity, declared type, void/value) at every mutation point (quick: a seeded sample of 10 per program) -> parse/assign_languages/resolve_names, then passes::type_check::run under catch_unwind (Ok/Err/panic only) vs Model.TypeCheck.check_file on the resolved AST; accepted statement-level expressions through Expr::compute_ty and AstVm::eval(..).ty() vs compute_ty / eval of the model; accepted programs through passes::evaluate_const_vars + const_simplify: the type of the cached value of every const (consts declared in any order, read plainly and through both sigils from other consts and from statements) vs its declared type and Model.Expr.ceval, the type of every folded literal vs compute_ty; a panic of those passes or of the CLI pipeline with a type-error message on an accepted program is a violation. distinct = distinct case terms; non-trivial = a whole program, or an expression for which the implementation produced a type',
         'traces_validated_against_impl': len(cases),
         'case_kinds': hist,
         'spec_disagreements_explained_by_table_rows': {code_class(c): sum(1 for i in explained if c in explained[i]) for c in sorted(set(x for i in explained for x in explained[i]))},
